@@ -7,7 +7,7 @@ D="$1"; TIER="$2"; shift 2
 W=/dev/shm/seedtry-$$
 git -C /repo worktree add -q --detach "$W" HEAD || exit 2
 cd "$W" || exit 2
-git apply "$D/patch.diff" || { echo "PATCH DOES NOT APPLY"; cd /; git -C /repo worktree remove --force "$W"; exit 2; }
+git apply "$D/patch.diff" 2>/dev/null || git apply --3way "$D/patch.diff" 2>/dev/null || { echo "PATCH DOES NOT APPLY"; cd /; git -C /repo worktree remove --force "$W"; exit 2; }
 T=$(/venv/bin/python -m pytest -q -p no:cacheprovider 2>&1 | tail -1)
 echo "tests with change: $T"
 /venv/bin/python "$D/demo.py" >/dev/null 2>&1; echo "demo with change: exit $?"
